@@ -219,13 +219,19 @@ CHECKS["C04"] = {
     "technique": "exhaustive enumeration of write histories on real outputs with producer and consumer views sampled in EVERY cycle; flags compared "
                  "with a reference write log and consumers compared with the producer",
     "design_ref": "DESIGN.md 2/C04",
-    "parts": [{"name": "flags", "exe": "c05_coll", "sources": ["c05_coll.cpp"], "sub": "c04", "shards": 16}],
+    "parts": [{"name": "flags", "exe": "c05_coll", "sources": ["c05_coll.cpp"], "sub": "c04", "shards": 16},
+              {"name": "forward", "exe": "c04_forward", "sources": ["c04_forward.cpp"], "shards": 16}],
     "rule": _COLL_RULE + "Oracle (C04), evaluated in every cycle (written or not): modified is true iff the reference performed an effective write in "
             "that cycle (false when nothing was written); valid from the first write until an explicit invalidation; last_modified_time equals the "
             "latest cycle in which modified was true; both passive consumers equal the producer on value, modified, valid, all_valid and "
             "last_modified_time; the active consumer is evaluated iff modified; a non-empty delta is readable only in the producing cycle; for "
             "TSL/TSB the parent is modified iff some child is, children agree between producer, consumer and a consumer bound to the child. "
-            "states = distinct observed per-cycle (flags,value) traces; transitions = consumer ticks checked.",
+            "states = distinct observed per-cycle (flags,value) traces; transitions = consumer ticks checked. "
+            "forward part (endpoint level): outer = TSB{d: TSD, l: TSL<2>, x: TS}; two write-through (forwarding) outputs whose targets are the interior "
+            "positions outer.d and outer.l; two inputs bound to outer and one bound to the forwarding output; every history of <= 2 operations per cycle "
+            "from {set / erase a key through the forwarding output, set a list element through it, direct writes to d, l, x, nothing}; after every "
+            "cycle modified / valid / last-modified-time of d, l, x, of their PARENT and of every consumer must equal the reference (a child written "
+            "through the link marks the target's ancestors). Erasing an absent key leaves the dictionary's and the parent's time open until their next write.",
     "bounds": {"quick": "as C05 quick", "thorough": "as C05 thorough"},
     "min_counters": {"quick": {"nontrivial": 100000, "states": 5000, "flags.cases_ts": 10000}},
     "assumptions": COMMON_ASSUMPTIONS + [
